@@ -42,15 +42,15 @@ type onceState struct {
 }
 
 type ThreadX struct {
-	id   int
-	wake chan struct{}
-	done bool
-	pend pendKind
-	ch   *ChanObj
-	val  Value
-	sel  []selCase
+	id         int
+	wake       chan struct{}
+	done       bool
+	pend       pendKind
+	ch         *ChanObj
+	val        Value
+	sel        []selCase
 	hasDefault bool
-	once *onceState
+	once       *onceState
 	// results
 	rval   Value
 	rok    bool
